@@ -141,7 +141,21 @@ Alloc(st, recs) == [st EXCEPT !.heap = @ \o recs]              \* new addresses 
 Opaque(st, name) == HaltWith(Fire(st, name), [o |-> "opaque", dev |-> name])
 
 InFn(st) == \E j \in 1..Len(st.k) : st.k[j].f = "callret"
-ThrowErr(st, cls, nid) == Cmp(Alloc(st, <<HErr(cls, "", nid, TRUE)>>), CThrow(VRef(Len(st.heap) + 1)))
+\* Dev_LocAfterLoopBody (as-is): an error raised by the engine while it evaluates the condition of a do-while or the update
+\* expression of a for statement - code that the compiler emits AFTER the loop body - carries the location of the last
+\* statement compiled before it (a statement of the body) instead of the loop statement's; the error object is tagged (lt)
+LoopTailFrames == {"seq", "ifdone", "loop", "iter", "swbody", "label", "callret", "scope", "try", "fin"}
+InLoopTail(st) ==
+  LET S == {j \in 1..Len(st.k) : st.k[j].f \in LoopTailFrames} IN
+  S # {} /\ LET fr == st.k[CHOOSE j \in S : \A q \in S : q <= j] IN
+            /\ fr.f = "loop"
+            /\ ((fr.w.s = "dowhile" /\ fr.ph = "test") \/ (fr.w.s = "for" /\ fr.ph = "upd"))
+            /\ ~(fr.w.b.s = "block" /\ fr.w.b.b = <<>>)
+ThrowErr(st, cls, nid) ==
+  LET er == IF D(st, "Dev_LocAfterLoopBody") /\ InLoopTail(st)
+            THEN [h |-> "err", cls |-> cls, msg |-> "", site |-> nid, rt |-> TRUE, infn |-> FALSE, lt |-> TRUE]
+            ELSE HErr(cls, "", nid, TRUE)
+  IN Cmp(Alloc(st, <<er>>), CThrow(VRef(Len(st.heap) + 1)))
 \* as-is rules for the location properties of error objects (recorded findings):
 \*   Dev_NoRuntimeLoc  : errors raised by the engine itself carry no location of their own (None, or the location of an
 \*                       unrelated earlier throw statement that happens to precede them in the source map)
@@ -151,7 +165,8 @@ ThrowErr(st, cls, nid) == Cmp(Alloc(st, <<HErr(cls, "", nid, TRUE)>>), CThrow(VR
 AsIsLoc(st, ov, r) ==
   IF r.t # "loc" THEN [v |-> r, d |-> ""]
   ELSE LET ho == st.heap[ov.r] IN
-       IF ho.rt /\ D(st, "Dev_NoRuntimeLoc") THEN [v |-> [t |-> "anyloc"], d |-> "Dev_NoRuntimeLoc"]
+       IF ho.rt /\ "lt" \in DOMAIN ho /\ D(st, "Dev_LocAfterLoopBody") THEN [v |-> [t |-> "anyloc"], d |-> "Dev_LocAfterLoopBody"]
+       ELSE IF ho.rt /\ D(st, "Dev_NoRuntimeLoc") THEN [v |-> [t |-> "anyloc"], d |-> "Dev_NoRuntimeLoc"]
        ELSE IF ~ho.rt /\ ho.infn /\ D(st, "Dev_NoLocInFunctions") THEN [v |-> [t |-> "hostnone"], d |-> "Dev_NoLocInFunctions"]
        ELSE IF D(st, "Dev_LocNextStatement") THEN [v |-> [t |-> "anyloc"], d |-> "Dev_LocNextStatement"]
        ELSE [v |-> r, d |-> ""]
